@@ -450,6 +450,13 @@ func (fa *Facts) transfer(in DNF, pred, succ *ssa.BasicBlock, predIdx int) DNF {
 				}
 				continue
 			}
+			if nilness(op) == +1 {
+				// an error (or pointer) freshly made on this path: the merged value is not nil here
+				switch phi.Type().Underlying().(type) {
+				case *types.Interface, *types.Pointer:
+					add = append(add, Fact{Op: token.NEQ, X: phi, Y: fa.Canon(ssa.NewConst(nil, phi.Type()))})
+				}
+			}
 			isDur := NamedTypeOf(phi.Type()) == "time.Duration"
 			if b, ok := phi.Type().Underlying().(*types.Basic); ok && (b.Info()&types.IsString != 0 || isDur) {
 				// provenance of string-valued phis (user names etc.) and of durations: on this path the phi IS the operand
